@@ -161,6 +161,26 @@ pub fn check_case(case: &Case) -> CaseResult {
         .label_if(expected.iter().any(|(b, _)| b.len() > 252), "multi_chunk_record"))
 }
 
+/// Streams of dozens of records (several arena chunks' worth) read with small blocks.
+pub fn long_case_strategy() -> impl Strategy<Value = Case> {
+    (
+        stream_in::stream_spec(70),
+        stream_in::delivery(),
+        proptest::option::weighted(0.2, (any::<u8>(), 0u8..3)),
+        proptest::option::weighted(0.15, (any::<u8>(), 0u8..3)),
+        prop_oneof![Just(2u8), Just(3), Just(4), Just(5), Just(6), Just(7), Just(8), Just(9)],
+    )
+        .prop_map(|(stream, mut delivery, max_size, limit, block)| {
+            delivery.block = block;
+            Case {
+                stream,
+                delivery,
+                max_size,
+                limit,
+            }
+        })
+}
+
 pub fn case_strategy() -> impl Strategy<Value = Case> {
     (
         stream_in::stream_spec(7),
@@ -217,6 +237,8 @@ pub fn run(ctx: &Ctx, rep: &mut Report) {
     engine::enumerate(ctx, rep, "log-truncated-at-every-byte", truncated_logs().into_iter(), check_case);
     let cases = ctx.share(ctx.tier.pick(30_000, 1_500_000));
     engine::drive(ctx, rep, "random", case_strategy(), cases, check_case);
+    let cases = ctx.share(ctx.tier.pick(4_000, 200_000));
+    engine::drive(ctx, rep, "long-streams", long_case_strategy(), cases, check_case);
 }
 
 fn replay(_ctx: &Ctx, _group: &str, case: &Value) -> CaseResult {
@@ -226,7 +248,7 @@ fn replay(_ctx: &Ctx, _group: &str, case: &Value) -> CaseResult {
 pub fn def() -> PropDef {
     PropDef {
         id: "C06",
-        rule: "A case is (stream description, delivery, judge parameters): streams and deliveries as in C08 (records, torn and corrupted records, garbage, lone FE, 0..3 delimiters after each token, whole-stream truncation; scripted short reads / EINTR, block sizes {0,1,2,3,4,5,7,8,64,4096,70000,default}, arena preparation); the standard judge gets a size limit placed at the decoded size of some valid record -1/0/+1 and an offset limit placed at the start of some segment -1/0/+1 (or none). Oracle: split the stream at every FE FD with an independent splitter, keep non-empty segments up to the first one starting at or after the limit, keep those the reference decoder accepts with decoded size <= max; next_record_bytes must return exactly that list of (bytes, byte range), then None three times, without error or panic; last_sentinel_offset is the start of the last delimiter read. A small log truncated at every byte is enumerated. Non-trivial: >= 2 returned records with a skipped (invalid / oversized / empty-payload) segment between two of them, or a read that split an FE|FD pair in a stream with at least one returned record. Distinct: hash of the serialised case.",
+        rule: "A case is (stream description, delivery, judge parameters): streams and deliveries as in C08 (records, torn and corrupted records, garbage, lone FE, 0..3 delimiters after each token, whole-stream truncation; scripted short reads / EINTR, block sizes {0,1,2,3,4,5,7,8,64,4096,70000,default}, arena preparation); the standard judge gets a size limit placed at the decoded size of some valid record -1/0/+1 and an offset limit placed at the start of some segment -1/0/+1 (or none). Oracle: split the stream at every FE FD with an independent splitter, keep non-empty segments up to the first one starting at or after the limit, keep those the reference decoder accepts with decoded size <= max; next_record_bytes must return exactly that list of (bytes, byte range), then None three times, without error or panic; last_sentinel_offset is the start of the last delimiter read. A small log truncated at every byte is enumerated; long-streams uses up to 70 tokens (several arena chunks' worth of records) with block sizes 3..4096, so that reads cross arena chunk boundaries in many alignments. Non-trivial: >= 2 returned records with a skipped (invalid / oversized / empty-payload) segment between two of them, or a read that split an FE|FD pair in a stream with at least one returned record. Distinct: hash of the serialised case.",
         assumptions: &[
             "only the standard judge (chunk_judge) is modelled",
             "readers only deliver short reads and Interrupted errors",
